@@ -402,6 +402,31 @@ fn main() {
     let args: Vec<String> = std::env::args().collect();
     match args.get(1).map(|s| s.as_str()) {
         Some("replay") => cmd_replay(&args[2..]),
+        Some("fnone") => {
+            // a single table entry (replay of a reported violation)
+            let a = &args[2..];
+            let alpha: Vec<u8> = arg(a, "--alpha").unwrap().split(',').map(|x| x.parse().unwrap()).collect();
+            let k: u64 = arg(a, "--k").and_then(|s| s.parse().ok()).unwrap_or(0);
+            let out = arg(a, "--out").expect("--out");
+            let with_cfg = a.iter().any(|x| x == "--cfg");
+            std::fs::create_dir_all(&out).unwrap();
+            let mut w = TraceWriter::create(&format!("{}/shard_0.ndjson", out));
+            w.write(&json!({"ev": "fnhdr", "base": k, "stride": 1, "maxlen": 0, "alpha": alpha, "cfg": with_cfg}));
+            let d = muxide_verif_harness::fnt::str_of(k, &alpha);
+            w.write(&muxide_verif_harness::fnt::fn_event(k, &d, with_cfg));
+            let n = w.finish();
+            println!("{}", json!({"instances": 1, "events": n, "shards": 1}));
+        }
+        Some("fnt") => {
+            let a = &args[2..];
+            let alpha: Vec<u8> = arg(a, "--alpha").unwrap_or("0,1,2,3,255".into()).split(',').map(|x| x.parse().unwrap()).collect();
+            let maxlen: usize = arg(a, "--maxlen").and_then(|s| s.parse().ok()).unwrap_or(5);
+            let shards: usize = arg(a, "--shards").and_then(|s| s.parse().ok()).unwrap_or(16);
+            let out = arg(a, "--out").expect("--out");
+            let with_cfg = a.iter().any(|x| x == "--cfg");
+            let (tot, events) = muxide_verif_harness::fnt::run(&alpha, maxlen, &out, shards, with_cfg);
+            println!("{}", json!({"instances": tot, "events": events, "shards": shards}));
+        }
         _ => {
             eprintln!("usage: harness replay --in FILE --out DIR --shards N");
             std::process::exit(2);
